@@ -94,6 +94,37 @@ func (x *Exec) callMulti(s *State, call *ast.CallExpr) []*Term {
 	if fl, ok := unparen(call.Fun).(*ast.FuncLit); ok {
 		return x.inlineClosure(s, fl, call)
 	}
+	// a function value produced by a callee whose contract declares its function results side-effect free
+	// (resultpure, an assumption listed in the evidence): uninterpreted function of (value, arguments), no havoc
+	if id, ok := unparen(call.Fun).(*ast.Ident); ok && x.pureFV != nil {
+		if _, isVar := x.frame().info.ObjectOf(id).(*types.Var); isVar {
+			fv := x.eval(s, id)
+			if x.pureFV[fv] {
+				if sig, ok := x.typeOf(call.Fun).Underlying().(*types.Signature); ok {
+					as := []*Term{fv}
+					for i, a := range call.Args {
+						var pt types.Type
+						if i < sig.Params().Len() {
+							pt = sig.Params().At(i).Type()
+						}
+						v := x.eval(s, a)
+						if pt != nil {
+							v = x.fit(v, x.eng.tm.sortOf(pt))
+						}
+						as = append(as, v)
+					}
+					var out []*Term
+					for i := 0; i < sig.Results().Len(); i++ {
+						rt := sig.Results().At(i).Type()
+						v := x.uf(fmt.Sprintf("fvcall_%s_%d", sanitize(types.TypeString(sig, nil)), i), x.eng.tm.sortOf(rt), as...)
+						s.assume(x.typeInv(s, v, rt, 0))
+						out = append(out, v)
+					}
+					return out
+				}
+			}
+		}
+	}
 	// unknown callee: evaluate args for their obligations, havoc
 	for _, a := range call.Args {
 		x.eval(s, a)
@@ -1003,6 +1034,17 @@ func (x *Exec) callModular(s *State, fi *FuncInfo, ct *Contract, recv *Term, arg
 			continue
 		}
 		vals = append(vals, x.havocValue(s, "r_"+fi.Obj.Name(), rt))
+	}
+	if ct.ResultPure != "" {
+		for i := 0; i < sig.Results().Len(); i++ {
+			if _, ok := sig.Results().At(i).Type().Underlying().(*types.Signature); ok {
+				if x.pureFV == nil {
+					x.pureFV = map[*Term]bool{}
+				}
+				x.pureFV[vals[i]] = true
+				x.eng.usedTrusted[ct.Key+" (resultpure)"] = ct.ResultPure
+			}
+		}
 	}
 	for _, en := range ct.Ensures {
 		s.assume(x.evalClauseIn(s, env, fi, en, vals, pre))
